@@ -1792,8 +1792,10 @@ def _lincomb_impl(a, x1, b, x2, out):
 
     size = native(x1.size)
 
-    if size < THRESHOLD_SMALL:
-        # Faster for small arrays
+    if size < THRESHOLD_SMALL or not is_floating_dtype(out.dtype):
+        # Faster for small arrays. Also the only variant that works for
+        # integer data, since the in-place variants below need true
+        # division and scaling by arbitrary scalars.
         out.data[:] = a * x1.data + b * x2.data
         return
 
